@@ -6,12 +6,50 @@
 
 use crate::common::Ctx;
 
+pub mod c01;
+pub mod c02;
+pub mod c03;
+pub mod c04;
+pub mod c05;
+pub mod c06;
+pub mod c07;
+pub mod c08;
+pub mod c09;
+pub mod c10;
+pub mod c11;
+pub mod c12;
 pub mod c13;
+pub mod c14;
+pub mod c15;
+pub mod c16;
+pub mod c17;
+pub mod c18;
+pub mod c19;
+pub mod c20;
 
 macro_rules! dispatch {
     ($ctx:expr, $f:ident $(, $arg:expr)*) => {
         match $ctx.prop.as_str() {
+            "C01" => { c01::$f($ctx $(, $arg)*); true }
+            "C02" => { c02::$f($ctx $(, $arg)*); true }
+            "C03" => { c03::$f($ctx $(, $arg)*); true }
+            "C04" => { c04::$f($ctx $(, $arg)*); true }
+            "C05" => { c05::$f($ctx $(, $arg)*); true }
+            "C06" => { c06::$f($ctx $(, $arg)*); true }
+            "C07" => { c07::$f($ctx $(, $arg)*); true }
+            "C08" => { c08::$f($ctx $(, $arg)*); true }
+            "C09" => { c09::$f($ctx $(, $arg)*); true }
+            "C10" => { c10::$f($ctx $(, $arg)*); true }
+            "C11" => { c11::$f($ctx $(, $arg)*); true }
+            "C12" => { c12::$f($ctx $(, $arg)*); true }
             "C13" => { c13::$f($ctx $(, $arg)*); true }
+            "C14" => { c14::$f($ctx $(, $arg)*); true }
+            "C15" => { c15::$f($ctx $(, $arg)*); true }
+            "C16" => { c16::$f($ctx $(, $arg)*); true }
+            "C17" => { c17::$f($ctx $(, $arg)*); true }
+            "C18" => { c18::$f($ctx $(, $arg)*); true }
+            "C19" => { c19::$f($ctx $(, $arg)*); true }
+            "C20" => { c20::$f($ctx $(, $arg)*); true }
             _ => false,
         }
     };
